@@ -14,6 +14,9 @@ COMMON = r'''
 #ifndef VF_CAP
 #define VF_CAP 8          /* capacity of locally created containers (model bound) */
 #endif
+/* A spec may `#define VF_SEQ_EXACT <N>` before including gen.h: vf_seq find/erase then are exact (their loops have a
+   constant trip count N and no loop contract; an assertion checks that lengths stay <= N). Default: loop contracts
+   that only keep indices in range (element values after erase, first-occurrence of find are then unknown). */
 typedef void (*vf_fnptr)(void);
 typedef long vf_str;        /* opaque string id: equality only */
 #define VF_STR_EMPTY ((vf_str)0)
@@ -48,26 +51,42 @@ static inline %(T)s* vf_seq_%(G)s_find_in(%(T)s* b, %(T)s* e, %(T)s v)
 {
   size_t cnt = (size_t)(e - b);
   size_t i = 0;
+#ifdef VF_SEQ_EXACT /* exact variant (first occurrence is found): constant trip count, no loop contract */
+  __CPROVER_assert(cnt <= VF_SEQ_EXACT, "vf_seq find: range within VF_SEQ_EXACT");
+/*EXACT_FIND*/
+#else
   while (i < cnt && !(%(EQ)s))
     __CPROVER_assigns(i)
     __CPROVER_loop_invariant(i <= cnt)
     __CPROVER_decreases(cnt - i)
   { i++; }
+#endif
   return b + i;
 }
 static inline %(T)s* vf_seq_%(G)s_erase(struct vf_seq_%(G)s* s, %(T)s* it)
 {
   size_t i = (size_t)(it - (s->d + s->h));
   __CPROVER_assert(i < s->n, "vf_seq erase in range");
+#ifdef VF_SEQ_EXACT /* exact variant (the tail is shifted, element by element): constant trip count, no loop contract */
+  __CPROVER_assert(s->n <= VF_SEQ_EXACT, "vf_seq erase: length within VF_SEQ_EXACT");
+/*EXACT_ERASE*/
+#else
   for (size_t j = i; j + 1 < s->n; j++)
     __CPROVER_assigns(j, __CPROVER_object_whole(s->d))
     __CPROVER_loop_invariant(i <= j && j < s->n)
     __CPROVER_decreases(s->n - j)
   { s->d[s->h + j] = s->d[s->h + j + 1]; }
+#endif
   s->n--;
   return it;
 }
 '''
+
+EXACT_MAX = 16
+_find = "".join("#if VF_SEQ_EXACT > %d\n  if (i == %d && i < cnt && !(%%(EQ)s)) i = %d;\n#endif\n" % (j, j, j + 1) for j in range(EXACT_MAX))
+_erase = "".join("#if VF_SEQ_EXACT > %d\n  if (i <= %d && %d < s->n) s->d[s->h + %d] = s->d[s->h + %d];\n#endif\n" % (j + 1, j, j + 1, j, j + 1) for j in range(EXACT_MAX))
+_guard = "#if VF_SEQ_EXACT > %d\n#error \"VF_SEQ_EXACT too large for the unrolled models\"\n#endif\n" % EXACT_MAX
+SEQ = SEQ.replace("/*EXACT_FIND*/\n", _guard + _find).replace("/*EXACT_ERASE*/\n", _erase)
 
 SEQ_EXTRA = r'''
 static inline %(T)s* vf_seq_%(G)s_erase_range(struct vf_seq_%(G)s* s, %(T)s* first, %(T)s* last)
